@@ -13,13 +13,17 @@ static std::string op_aem(const Toks &t) {
     size_t olen_cap = enc ? in.n + 16 : (in.n >= 16 ? in.n - 16 : 0);
     Buf out(olen_cap);
     size_t olen = (size_t)-7; int r = 0;
+    // trailing "RK" / "RK2": the masked key is re-randomized (once / twice) between its creation and its use
+    int rk = (t.size() > 7 && t[7] == "RK") ? 1 : (t.size() > 7 && t[7] == "RK2") ? 2 : 0;
     if (v == "80pq") {
         ascon_masked_key_160_t mk; ascon_masked_key_160_init(&mk, k.p);
+        for (int i = 0; i < rk; ++i) ascon_masked_key_160_randomize(&mk);
         if (enc) ascon80pq_masked_aead_encrypt(out.p, &olen, in.p, in.n, ad.p, ad.n, n.p, &mk);
         else r = ascon80pq_masked_aead_decrypt(out.p, &olen, in.p, in.n, ad.p, ad.n, n.p, &mk);
         ascon_masked_key_160_free(&mk);
     } else {
         ascon_masked_key_128_t mk; ascon_masked_key_128_init(&mk, k.p);
+        for (int i = 0; i < rk; ++i) ascon_masked_key_128_randomize(&mk);
         if (v == "128") {
             if (enc) ascon128_masked_aead_encrypt(out.p, &olen, in.p, in.n, ad.p, ad.n, n.p, &mk);
             else r = ascon128_masked_aead_decrypt(out.p, &olen, in.p, in.n, ad.p, ad.n, n.p, &mk);
@@ -49,9 +53,21 @@ template <class C, bool LEN = false> static std::string cpp_run(const Toks &t, s
     std::vector<unsigned char> k = unhex(t[3]), n = unhex(t[4]), ad = unhex(t[5]), in = unhex(t[6]);
     std::string path = t.size() > 7 ? t[7] : "ctor";
     C *obj;
-    if (path == "setkey") { obj = new C(); if (!obj->set_key(k.data(), klen)) { delete obj; return "SETKEY-FAILED"; } }
+    if (path == "setkey" || path == "setkeybad") {
+        obj = new C(); if (!obj->set_key(k.data(), klen)) { delete obj; return "SETKEY-FAILED"; }
+        // a refused set_key (wrong length; NULL with a non-zero length) must leave the key that is set untouched
+        if (path == "setkeybad") {
+            std::vector<unsigned char> junk(klen + 9, 0x3c);
+            if (obj->set_key(junk.data(), klen + 1) || obj->set_key(junk.data(), klen - 1) || obj->set_key(0, klen)) { delete obj; return "BAD-SETKEY-ACCEPTED"; }
+        }
+    }
+    else if (path == "setkeylast") {
+        // nonce first, key afterwards: set_key is documented to leave the nonce as it is
+        obj = new C(); obj->set_nonce(n.data(), n.size());
+        if (!obj->set_key(k.data(), klen)) { delete obj; return "SETKEY-FAILED"; }
+    }
     else obj = MkObj<C, LEN>::make(k.data(), klen);
-    obj->set_nonce(n.data(), n.size());
+    if (path != "setkeylast") obj->set_nonce(n.data(), n.size());
     std::string res;
     if (t.size() > 8 && t[8] == "BA") {
         ascon::byte_array out, bin(in.begin(), in.end()), bad(ad.begin(), ad.end());
